@@ -494,7 +494,7 @@ theorem recvAt_spec (nn : NetNode) (u port proto : Nat) (p : Payload) :
   | some d =>
     cases hc : nn.n.handles u with
     | false =>
-      simp only [C13_receiveH_blocked, NStep]
+      simp only [C13_receiveH_blocked, NStep, applyHealthWrite]
       refine ⟨by simp, by simp, by simp, by simp, by simp, ?_, ?_, ?_⟩
       · intro v hv; rw [dget_dset]; simp [Ne.symm hv]
       · intro _
@@ -732,6 +732,72 @@ theorem C13_ntp_receive (now : Nat) (t : Option Nat) (srv : Option Nat) (p : Pay
       | _ => (.ntpClient t srv, .f, [], p)) := by
   constructor <;> cases p <;> simp [Data.receive] <;> (rename_i r; cases r <;> simp [Data.receive])
 
+/-- **Web server, status code.**  `GET` of the site root → 200; of a `users…` path → 200 with health GOOD when the database
+answers the query, 404 with health COMPROMISED when the query fails, 500 (health untouched, nothing cached) when no database
+connection can be had — a cached connection is reused, otherwise the node's database client (if installed) is asked once and
+the connection it hands out is cached; of any other path → 404. -/
+theorem C13_web_get_status (path : PathKind) (conn offer : Option Bool) (hasDb : Bool) :
+    webGet path conn offer hasDb =
+      match path with
+      | .root => (200, conn, none)
+      | .other => (404, conn, none)
+      | .users =>
+        match (match conn with | some ok => some ok | none => if hasDb then offer else none) with
+        | none => (500, none, none)
+        | some true => (200, some true, some .good)
+        | some false => (404, some false, some .compromised) := by
+  cases path with
+  | root => rfl
+  | other => rfl
+  | users =>
+    cases conn with
+    | some ok => cases ok <;> rfl
+    | none =>
+      cases hasDb with
+      | false => rfl
+      | true =>
+        cases offer with
+        | none => rfl
+        | some ok => cases ok <;> rfl
+
+/-- **Web server, `receive`.**  A RUNNING web server answers every HTTP request with exactly one response, sent back along the
+session, and records its status in `response_codes_this_timestep`: GET as `C13_web_get_status` says, POST an empty response
+(status None), any other method 405; returns True iff the status is 200; health is written only by a `users…` GET that got a
+connection.  Anything that is not an HTTP request is refused without effect. -/
+theorem C13_web_server_receive (codes : List (Option Nat)) (conn offer : Option Bool) (now : Nat) (hasDb : Bool) (p : Payload) :
+    (Data.webServer codes conn offer).receiveH true now hasDb p =
+      match p with
+      | .httpReq .get path _ =>
+        ((.webServer (codes ++ [some (webGet path conn offer hasDb).1]) (webGet path conn offer hasDb).2.1 offer,
+          Ret.ofBool ((webGet path conn offer hasDb).1 == 200), [(.session, .httpResp (some (webGet path conn offer hasDb).1))], p),
+         (webGet path conn offer hasDb).2.2)
+      | .httpReq .post _ _ => ((.webServer (codes ++ [none]) conn offer, .f, [(.session, .httpResp none)], p), none)
+      | .httpReq .other _ _ => ((.webServer (codes ++ [some 405]) conn offer, .f, [(.session, .httpResp (some 405))], p), none)
+      | _ => ((.webServer codes conn offer, .f, [], p), none) := by
+  cases p with
+  | httpReq m path i => cases m <;> rfl
+  | dns name r => cases r <;> rfl
+  | ntp r => cases r <;> rfl
+  | _ => rfl
+
+/-- **Web browser, `receive`**: an HTTP response becomes `latest_response` (True); anything else is refused; history and the
+configured target are not touched by `receive`. -/
+theorem C13_web_browser_receive (latest : Option (Option Nat)) (hist : List (Nat × Option (Option Nat))) (tgt : Option Nat)
+    (now : Nat) (hasDb : Bool) (p : Payload) :
+    (Data.webBrowser latest hist tgt).receiveH true now hasDb p =
+      match p with
+      | .httpResp code => ((.webBrowser (some code) hist tgt, .t, [], p), none)
+      | _ => ((.webBrowser latest hist tgt, .f, [], p), none) := by
+  cases p with
+  | dns name r => cases r <;> rfl
+  | ntp r => cases r <;> rfl
+  | _ => rfl
+
+/-- a web server that is not RUNNING (or whose node is not ON) answers nothing, records nothing, writes no health; a browser
+that is not RUNNING keeps its `latest_response` (instances of `C13_receiveH_blocked`, stated for the two classes) -/
+theorem C13_web_not_running (d : Data) (now : Nat) (hasDb : Bool) (p : Payload) :
+    d.receiveH false now hasDb p = ((d, .f, [], p), none) := rfl
+
 /-! ### two nodes: the transport keeps the running-guard, and a lookup / a time request end to end -/
 
 theorem get_set_same (w : World) (side : Side) (nn : NetNode) : (w.set side nn).get side = nn := by
@@ -888,7 +954,7 @@ theorem C13_dns_lookup_end_to_end (w : World) (side : Side) (u v : Nat) (name : 
       simp only [Side.other, World.get] at hcl hact hon hacc hpath hsrv hacc2 hpath2 hsact hon1 hloc ⊢ <;>
       (cases hlk : dget name tbl <;>
         simp only [World.dnsQuery, World.send, World.fuel, hloc, World.run, World.get, World.set, NetNode.recvAt, hsrv, hsact,
-          Data.receiveH, Data.receive, hlk, Bool.not_true, Bool.false_eq_true, if_false, List.map_cons, List.map_nil, List.cons_append,
+          Data.receiveH, Data.receive, applyHealthWrite, hlk, Bool.not_true, Bool.false_eq_true, if_false, List.map_cons, List.map_nil, List.cons_append,
           List.nil_append, World.route, Side.other, World.hdrOf, if_true, hon, hon1, hacc, hacc2, Payload.isScan,
           Bool.and_self, Bool.and_true, hpath, hpath2, hcl, hact, dget_dset, NetNode.dnsCached, beq_self_eq_true,
           Bool.true_and, Option.isSome_none, Option.isSome_some, Ret.ofBool, hm, and_self, and_true, true_and])
@@ -896,7 +962,7 @@ theorem C13_dns_lookup_end_to_end (w : World) (side : Side) (u v : Nat) (name : 
     cases side <;>
       simp only [Side.other, World.get] at hcl hact hon hacc hpath hsrv hacc2 hpath2 hsact hon1 hloc ⊢ <;>
       simp only [World.dnsQuery, World.send, World.fuel, hloc, World.run, World.get, World.set, NetNode.recvAt, hsrv, hsact,
-        Data.receiveH, Data.receive, Bool.not_false, if_true, List.map_nil, List.nil_append, World.route, Side.other, World.hdrOf, hon,
+        Data.receiveH, Data.receive, applyHealthWrite, Bool.not_false, if_true, List.map_nil, List.nil_append, World.route, Side.other, World.hdrOf, hon,
         hon1, hacc, hacc2, Payload.isScan, Bool.and_self, Bool.and_true, hpath, hpath2, hcl, hact, dget_dset,
         NetNode.dnsCached, beq_self_eq_true, Bool.true_and, hm, Option.isSome_none] <;>
       exact ⟨trivial, trivial⟩
@@ -957,7 +1023,7 @@ theorem C13_ntp_request_end_to_end (w : World) (side : Side) (u v : Nat) (t : Op
     cases side <;>
       simp only [Side.other, World.get] at hcl hon hon1 hacc hpath hsrv hacc2 hpath2 hsact hact ⊢ <;>
       simp only [World.ntpRequest, World.send, World.fuel, World.run, World.get, World.set, NetNode.recvAt, hsrv, hsact,
-        Data.receiveH, Data.receive, Bool.not_true, Bool.false_eq_true, if_false, List.map_cons, List.map_nil, List.cons_append,
+        Data.receiveH, Data.receive, applyHealthWrite, Bool.not_true, Bool.false_eq_true, if_false, List.map_cons, List.map_nil, List.cons_append,
         List.nil_append, World.route, Side.other, hdrOf_udp, if_true, hon, hon1, hacc, hacc2, Payload.isScan,
         Bool.and_self, Bool.and_true, hpath, hpath2, hcl, hact, dget_dset, NetNode.ntpTime, beq_self_eq_true,
         Bool.true_and, and_self, and_true, true_and] <;>
@@ -967,7 +1033,7 @@ theorem C13_ntp_request_end_to_end (w : World) (side : Side) (u v : Nat) (t : Op
     · cases side <;>
         simp only [Side.other, World.get] at hcl hon hon1 hacc hpath hsrv hacc2 hpath2 hsact ⊢ <;>
         simp only [World.ntpRequest, World.send, World.fuel, World.run, World.get, World.set, NetNode.recvAt, hsrv, hsact,
-          Data.receiveH, Data.receive, Bool.not_false, if_true, List.map_nil, List.nil_append, World.route, Side.other, hdrOf_udp, hon,
+          Data.receiveH, Data.receive, applyHealthWrite, Bool.not_false, if_true, List.map_nil, List.nil_append, World.route, Side.other, hdrOf_udp, hon,
           hon1, hacc, hacc2, Payload.isScan, Bool.and_self, Bool.and_true, hpath, hpath2, hcl, dget_dset, NetNode.ntpTime,
           beq_self_eq_true, Bool.true_and] <;>
         simp [dget_dset, hcl]
@@ -975,11 +1041,84 @@ theorem C13_ntp_request_end_to_end (w : World) (side : Side) (u v : Nat) (t : Op
       cases side <;>
         simp only [Side.other, World.get] at hcl hon hon1 hacc hpath hsrv hacc2 hpath2 hsact hact ⊢ <;>
         simp only [World.ntpRequest, World.send, World.fuel, World.run, World.get, World.set, NetNode.recvAt, hsrv, hsact, hact,
-          Data.receiveH, Data.receive, Bool.not_false, Bool.not_true, Bool.false_eq_true, if_false, if_true, List.map_nil, List.map_cons,
+          Data.receiveH, Data.receive, applyHealthWrite, Bool.not_false, Bool.not_true, Bool.false_eq_true, if_false, if_true, List.map_nil, List.map_cons,
           List.cons_append, List.nil_append, World.route, Side.other, hdrOf_udp, hon,
           hon1, hacc, hacc2, Payload.isScan, Bool.and_self, Bool.and_true, hpath, hpath2, hcl, dget_dset, NetNode.ntpTime,
           beq_self_eq_true, Bool.true_and] <;>
         simp [dget_dset, hcl]
+
+/-! ### browsing, end to end -/
+
+theorem hdrOf_tcp (p : Nat) : World.hdrOf p 1 = some (.tcp p) := by simp [World.hdrOf]
+
+theorem isOn_healthWrite (n : Node) (u : Nat) (hw : HealthWrite) : (applyHealthWrite n u hw).isOn = n.isOn := by
+  cases hw <;> rfl
+
+/-- **A page fetch, end to end.**  A RUNNING web browser `u` on an ON node fetches a URL whose host name is in the cache of
+the node's (RUNNING) DNS client and resolves to the peer's address; the peer is ON, the URL's port (80 by default) is owned
+there by a web server `v` as the only receiver, and the browser is the only receiver of that port on its own node, both
+frames accepted.  Then `get_webpage`:
+* if the web server is RUNNING: the status is what `C13_web_get_status` says for the URL's path and the server's database
+  situation; the browser's `latest_response` is that status, its history gains exactly `(url, LOADED status)`, the answer is
+  True iff the status is 200; the server's `response_codes_this_timestep` gains exactly that status;
+* if the web server may not act: nothing answers — `latest_response` stays at the preset 404, the history gains
+  `(url, LOADED 404)`, the answer is False, the server's data is untouched. -/
+theorem C13_browse_end_to_end (w : World) (side : Side) (u dc v : Nat) (url : World.Url) (name : String) (ip : Nat)
+    (latest : Option (Option Nat)) (hist : List (Nat × Option (Option Nat))) (tgt : Option Nat)
+    (cache : List (String × Nat)) (srv : Option Nat) (codes : List (Option Nat)) (conn offer : Option Bool)
+    (hbr : dget u (w.get side).data = some (.webBrowser latest hist tgt))
+    (hact : (w.get side).n.handles u = true)
+    (hhost : url.host = .name name)
+    (hdc : dget "dns-client" (w.get side).n.software = some dc) (hne : u ≠ dc)
+    (hdcd : dget dc (w.get side).data = some (.dnsClient cache srv))
+    (hdcact : (w.get side).n.handles dc = true)
+    (hcached : dget name cache = some ip)
+    (hip : ip = (w.get side.other).addr)
+    (hon : (w.get side.other).n.isOn = true)
+    (hacc : (w.get side.other).n.frameAccepted (.tcp (url.port.getD 80)) false = true)
+    (hpath : recvCalls (w.get side.other).n (url.port.getD 80) 1 false = [(v, false)])
+    (hsrv : dget v (w.get side.other).data = some (.webServer codes conn offer))
+    (hacc2 : (w.get side).n.frameAccepted (.tcp (url.port.getD 80)) false = true)
+    (hpath2 : recvCalls (w.get side).n (url.port.getD 80) 1 false = [(u, false)]) :
+    let code := (webGet url.path conn offer (dhas "database-client" (w.get side.other).n.software)).1
+    ((w.get side.other).n.handles v = true →
+      (w.browse side u (some url)).2 = .ret (code == 200) ∧
+      dget u ((w.browse side u (some url)).1.get side).data =
+        some (.webBrowser (some (some code)) (hist ++ [(url.id, some (some code))]) tgt) ∧
+      dget v ((w.browse side u (some url)).1.get side.other).data =
+        some (.webServer (codes ++ [some code])
+          (webGet url.path conn offer (dhas "database-client" (w.get side.other).n.software)).2.1 offer)) ∧
+    ((w.get side.other).n.handles v = false →
+      (w.browse side u (some url)).2 = .ret false ∧
+      dget u ((w.browse side u (some url)).1.get side).data =
+        some (.webBrowser (some (some 404)) (hist ++ [(url.id, some (some 404))]) tgt) ∧
+      dget v ((w.browse side u (some url)).1.get side.other).data = some (.webServer codes conn offer)) := by
+  intro code
+  have hon1 := handles_isOn _ _ hact
+  subst hip
+  have hne' : ¬ dc = u := fun h => hne h.symm
+  have hc : dhas name cache = true := by simp [dhas, hcached]
+  constructor
+  · intro hsact
+    cases side <;>
+      simp only [Side.other, World.get] at hbr hact hdc hdcd hdcact hon hacc hpath hsrv hacc2 hpath2 hsact hon1 ⊢ <;>
+      simp only [World.browse, World.get, World.set, hbr, hact, Bool.not_true, Bool.false_eq_true, if_false, NetNode.setData,
+        hdc, World.dnsQuery, NetNode.dnsLookupLocal, dget_dset, hne, hne', hdcd, hdcact, hc, if_true, hhost, World.Host.text,
+        NetNode.dnsCached, hcached, World.sendOk, Side.other, beq_self_eq_true, hon, hon1, Bool.and_self, Bool.true_and,
+        World.send, World.fuel, World.run, World.route, hdrOf_tcp, hacc, hacc2, Payload.isScan, hpath, hpath2,
+        NetNode.recvAt, hsrv, hsact, Data.receiveH, List.map_cons, List.map_nil, List.cons_append, List.nil_append,
+        isOn_healthWrite, Option.getD_some, Bool.and_true] <;>
+      exact ⟨by simp [code, World.get, Side.other], rfl, rfl⟩
+  · intro hsact
+    cases side <;>
+      simp only [Side.other, World.get] at hbr hact hdc hdcd hdcact hon hacc hpath hsrv hacc2 hpath2 hsact hon1 ⊢ <;>
+      simp only [World.browse, World.get, World.set, hbr, hact, Bool.not_true, Bool.false_eq_true, if_false, NetNode.setData,
+        hdc, World.dnsQuery, NetNode.dnsLookupLocal, dget_dset, hne, hne', hdcd, hdcact, hc, if_true, hhost, World.Host.text,
+        NetNode.dnsCached, hcached, World.sendOk, Side.other, beq_self_eq_true, hon, hon1, Bool.and_self, Bool.true_and,
+        World.send, World.fuel, World.run, World.route, hdrOf_tcp, hacc, hacc2, Payload.isScan, hpath, hpath2,
+        NetNode.recvAt, hsrv, hsact, Data.receiveH, Bool.not_false, applyHealthWrite, List.map_nil, List.nil_append,
+        Option.getD_some, Bool.and_true] <;>
+      exact ⟨by decide, trivial, trivial⟩
 
 /-! ### the transport terminates -/
 
